@@ -17,6 +17,11 @@
              | C!<g>!<size>!<x standard blocks>   laspy.convert to point format g (the standard blocks of the result)
              | U!<k> | U!-                    re-read of a file whose extra-bytes VLR keeps its first k descriptors / is absent
      -> fresh=T|F <step0>;<step>;...   step0 = the initial state (ok@...) or err:E
+   hist3 <same arguments as hist2>   a history in a world of several live LasData; further ops
+             | N:<op>                         the op (W, C!.., U!..) RETURNS a LasData: the history goes on with it, the old one stays alive
+             | F!<T|F>!<i,j,..|->             sel = las[[i, j, ..]] (numpy rule for negative entries); go on with sel (T) or with las (F)
+             | K                              another LasData with the same content
+     -> fresh=T|F <step0>;<step>;... <other live objects, in order of appearance, joined by # ; or ->
    eb_enc <edim>          -> ok x<192 bytes> | err E
    eb_dec <x bytes>       -> ok <edim> | err E *)
 open Model
@@ -101,6 +106,12 @@ let op_of_tok t = match String.split_on_char '!' t with
   | ["U"; "-"] -> Reread None
   | ["U"; k] -> Reread (Some (z_of_string k))
   | _ -> failwith ("bad op " ^ t)
+let wop_of_tok t =
+  if String.length t > 2 && String.sub t 0 2 = "N:" then WNew (op_of_tok (String.sub t 2 (String.length t - 2)))
+  else match String.split_on_char '!' t with
+  | ["F"; b; idx] -> WSelect (b = "T", zlist_of_tok idx)
+  | ["K"] -> WCopy
+  | _ -> WOp (op_of_tok t)
 let tok_of_state st =
   let fields = List.map (fun d ->
       let vals = List.concat_map (fun r -> match field_of d.ed_name r with Some b -> b | None -> []) st.st_recs in
@@ -138,6 +149,23 @@ let dispatch cmd a =
        let steps = trace s0 ops in
        "fresh=" ^ (if fresh then "T" else "F") ^ " " ^
        String.concat ";" (("ok@" ^ tok_of_state s0) :: List.map (fun (st, r) -> unit_res r ^ "@" ^ tok_of_state st) steps))
+  | "hist3" ->
+    let fmt = z_of_string a.(0) in
+    let ex = List.map edim_of_tok (split_on '+' a.(1)) in
+    let recs = values_of (int_of_string a.(2)) a.(3) in
+    let vl = vlrs_of_tok a.(4) in
+    let eb_last = a.(5) = "T" in
+    let ops = if Array.length a < 7 then [] else List.map wop_of_tok (split_on ';' a.(6)) in
+    (match init_ex fmt ex recs vl eb_last with
+     | Err e -> "fresh=T err:" ^ err_name e ^ " -"
+     | Ok s0 ->
+       let w0 = { w_cur = s0; w_others = [] } in
+       let fresh = wops_okb w0 ops in
+       let steps = wtrace w0 ops in
+       let last = wrun w0 ops in
+       "fresh=" ^ (if fresh then "T" else "F") ^ " " ^
+       String.concat ";" (("ok@" ^ tok_of_state s0) :: List.map (fun (w, r) -> unit_res r ^ "@" ^ tok_of_state w.w_cur) steps)
+       ^ " " ^ (if last.w_others = [] then "-" else String.concat "#" (List.map tok_of_state last.w_others)))
   | "eb_enc" -> res tok_of_bytes (enc_eb (edim_of_tok a.(0)))
   | "eb_dec" -> res tok_of_edim (dec_eb (bytes_of_tok a.(0)))
   | "std_names" -> String.concat "," (List.map tok_of_bytes (std_names (z_of_string a.(0))))
